@@ -707,9 +707,23 @@ def _exec_program(part, case):
                 return
             outs.append((r.err, r.out))
         listing1 = H.run(s, b'LIST').out
+        after = None
+        if errs and outs[0][0] is not None:
+            # the statement was refused: the target still reads as before, also after other strings were
+            # made and string space was collected
+            after = []
+            for probe in (b'T9$="q"+"r":PRINT "[";A$;"]";', b'T9$=T9$+T9$:X=FRE(""):PRINT "[";A$;"]";'):
+                r = H.run(s, probe)
+                if r.exc is not None:
+                    part.violation('program/host-exception/%s' % H.exc_key(r.exc), 'after the refused %s: %r raised %r' % (st, probe, r.exc), case)
+                    return
+                after.append((r.err, r.out))
     finally:
         s.close()
     cls = fn[5:] + ('' if src == 'lit' else '-' + src)
+    if after is not None and any(x != (None, b'[' + a.encode() + b']') for x in after):
+        part.violation('program/%s/target-changed-by-refused-statement' % cls,
+                       '%s was refused (error %r); afterwards A$ reads %r' % (line, outs[0][0], after), case)
     part.classes.add('prog:%s:%s' % (cls, 'err' if errs else 'ok'))
     part.outcome('err' if outs[0][0] else 'ok')
     if listing0 != listing1:
